@@ -7,6 +7,7 @@ CONSTANTS
     InstKind <- MC_KindD1
     NKeys = 2
     PropChoices <- MC_Props2
+    DupChoices <- MC_Dups
     Kinds <- MC_AllKinds
     Forms <- MC_Guard
     MaxFrames = 3
